@@ -427,6 +427,28 @@ impl<'c> Hist<'c> {
                 let nodes: Vec<NodePtr> = idx.iter().map(|i| self.live[*i].n).collect();
                 let snodes: Vec<NodePtr> = idx.iter().map(|i| self.live[*i].shadow).collect();
                 let size = total.len();
+                if k >= 1 && r.chance(1, 6) {
+                    // inconsistent size argument (too small, cut inside any term, or too large): must be refused and,
+                    // like every failed allocation, leave counts and contents unchanged
+                    let last = match &self.live[*idx.last().unwrap()].v {
+                        MVal::Atom(b) => b.len(),
+                        _ => 0,
+                    };
+                    let wrong = match r.below(4) {
+                        0 => size.saturating_sub(1),
+                        1 => size + 1 + r.usize(3),
+                        2 => size.saturating_sub(last.max(1)),
+                        _ => r.usize(size + 1),
+                    };
+                    if wrong != size {
+                        self.ctx.count("concat_wrong_size_calls");
+                        let (n2, s2) = (nodes.clone(), snodes.clone());
+                        if self.alloc_op(format!("new_concat(wrong size {wrong} instead of {size}, {idx:?})"), (1, 0, wrong), None, &move |a, sh| a.new_concat(wrong, if sh { &s2 } else { &n2 })).is_some() {
+                            self.fail("concat-accepts-wrong-size", json!({"size": size, "passed": wrong}));
+                        }
+                        return;
+                    }
+                }
                 self.ctx.count(&format!("concat_{}_terms", k.min(3)));
                 if let Some(n) = self.alloc_op(format!("new_concat({size}, {idx:?})"), (1, 0, size), None, &move |a, sh| a.new_concat(size, if sh { &snodes } else { &nodes })) {
                     let got = self.a.atom(n.0).as_ref().to_vec();
@@ -731,7 +753,8 @@ pub fn run_c14(ctx: &mut Ctx) {
         if r.chance(1, 4) {
             let mut a = Allocator::new();
             for _ in 0..20 {
-                let nbytes = *r.pick(&[1usize, 3, 4, 5, 8, 9, 16, 33, 100, 1000, 4096]);
+                // (decimal round trips of kilobyte integers are quadratic: far too slow for the interpreter layer)
+                let nbytes = if ctx.miri { *r.pick(&[1usize, 3, 4, 5, 8, 9, 16, 33]) } else { *r.pick(&[1usize, 3, 4, 5, 8, 9, 16, 33, 100, 1000, 4096]) };
                 let b = r.bytes(nbytes);
                 check_int(ctx, &mut a, BigInt::from_signed_bytes_be(&b));
             }
